@@ -186,10 +186,13 @@ def load_all(root, pkg, tmpd, twin=False):
     from conductor.errors import ConductorError
     idx = TaskIndex(pathlib.Path(root))
     try:
-        idx.load_transitive_closure(TaskIdentifier.from_str(gen.tid(pkg, "both" if twin else "grp")))
-        idx.load_all_tasks_in_cond_file(pathlib.Path(pkg, "COND"))
+        with common.cpu_budget(5):
+            idx.load_transitive_closure(TaskIdentifier.from_str(gen.tid(pkg, "both" if twin else "grp")))
+            idx.load_all_tasks_in_cond_file(pathlib.Path(pkg, "COND"))
     except ConductorError as ex:
         return ("rejected", type(ex).__name__)
+    except common.CpuBudgetExceeded:
+        return ("rejected", "does-not-terminate")
     res = {}
     for ident, t in idx.get_all_loaded_tasks().items():
         rec = {"type": type(t).__name__, "deps": [str(x) for x in t.deps], "parallelizable": bool(t.parallelizable)}
